@@ -56,6 +56,21 @@ impl TryFrom<Msg> for DFwd {
     }
 }
 
+/// a derived type whose reverse conversion is BROKEN (`TryFrom` always fails): when a send is refused
+/// the converter cannot hand the message back and panics — the documented "should never happen"
+struct DBroken(u64);
+impl From<DBroken> for Msg {
+    fn from(d: DBroken) -> Msg {
+        Msg::Fwd(d.0)
+    }
+}
+impl TryFrom<Msg> for DBroken {
+    type Error = ();
+    fn try_from(_: Msg) -> Result<DBroken, ()> {
+        Err(())
+    }
+}
+
 /// derived type over the WRONG message type (`InvalidActorType` must come back through the converter)
 struct DWrong;
 impl From<DWrong> for Wrong {
@@ -315,6 +330,7 @@ struct World {
     ids: Arc<Mutex<HashMap<ActorId, usize>>>,
     keeper: HashMap<u64, usize>, // port -> actor whose state holds it
     stashed: Vec<(usize, usize)>, // (supervisor, actor) events the harness had stashed (generator hint only)
+    free_fcall: bool,
 }
 
 async fn quiesce() {
@@ -343,6 +359,7 @@ impl World {
             ids: Default::default(),
             keeper: HashMap::new(),
             stashed: vec![],
+            free_fcall: false,
         }
     }
 
@@ -482,6 +499,9 @@ impl World {
     }
 
     async fn call(&mut self, a: usize, t: Option<u64>, via_macro: u8, via_derived: bool) -> String {
+        // via_macro == 9: the free function `rpc::call`
+        let via_free = via_macro == 9;
+        let via_macro = if via_free { 0 } else { via_macro };
         let id = self.next_port;
         self.next_port += 1;
         let Some(ah) = self.actors.get_mut(a) else { return "bad-actor".into() };
@@ -528,7 +548,12 @@ impl World {
                     Err(_) => "derived-err".into(),
                 };
             }
-            let res = r.call(|port| Msg::Call(id, port), Self::timeout(t)).await;
+            let res = if via_macro == 0 && via_free {
+                // the free function `rpc::call(&ActorCell, ..)` (runtime type check in `send_message`)
+                ractor::rpc::call(&r.get_cell(), |port| Msg::Call(id, port), Self::timeout(t)).await
+            } else {
+                r.call(|port| Msg::Call(id, port), Self::timeout(t)).await
+            };
             match res {
                 Ok(cr) => {
                     acc2.store(1, Ordering::SeqCst);
@@ -577,12 +602,25 @@ impl World {
                 let d: ractor::DerivedActorRef<DFwd> = r.get_derived();
                 d.cast(DFwd(v)).map(|_| "ok".to_string()).unwrap_or_else(dback)
             }
+            "dp" => {
+                // broken reverse conversion: a refused send must PANIC in the converter (documented),
+                // an accepted one must not
+                let d: ractor::DerivedActorRef<DBroken> = r.get_derived();
+                match std::panic::catch_unwind(std::panic::AssertUnwindSafe(|| d.cast(DBroken(v)))) {
+                    Ok(Ok(())) => "ok".into(),
+                    Ok(Err(_)) => "deconvert-did-not-panic".into(),
+                    Err(p) => {
+                        let m = p.downcast_ref::<String>().cloned().unwrap_or_default();
+                        if m.starts_with("Failed to deconvert message from") { "sendErr".into() } else { "other-panic".into() }
+                    }
+                }
+            }
             "ds" => {
                 let d: ractor::DerivedActorRef<DFwd> = r.get_derived();
                 let d2 = d.clone();
                 drop(d);
-                // `get_cell` and the `Deref<Target = ActorCell>` must name the very actor
-                if d2.get_cell().get_id() != r.get_id() || d2.get_id() != r.get_id() {
+                // `get_cell`, the `Deref<Target = ActorCell>` and `Debug` must name the very actor
+                if d2.get_cell().get_id() != r.get_id() || d2.get_id() != r.get_id() || !format!("{d2:?}").starts_with("DerivedActorRef") {
                     "derived-wrong-cell".into()
                 } else {
                     d2.send_message(DFwd(v)).map(|_| "ok".to_string()).unwrap_or_else(dback)
@@ -629,7 +667,12 @@ impl World {
             self.pending.push((id, Pending::Fcall(h, f)));
             return Self::fmt("ok", self.events().await);
         }
-        let r = self.actors[a].r.call_and_forward(|port| Msg::Call(id, port), &fwd, Msg::Fwd, Self::timeout(t));
+        let r = if self.free_fcall {
+            // the free function `rpc::call_and_forward(&ActorCell, .., ActorCell, ..)`
+            ractor::rpc::call_and_forward(&self.actors[a].r.get_cell(), |port| Msg::Call(id, port), fwd.get_cell(), Msg::Fwd, Self::timeout(t))
+        } else {
+            self.actors[a].r.call_and_forward(|port| Msg::Call(id, port), &fwd, Msg::Fwd, Self::timeout(t))
+        };
         match r {
             Err(_) => Self::fmt("ok", format!("fdone {id}=sendErr")),
             Ok(jh) => {
@@ -928,10 +971,17 @@ impl World {
             ["call", a, tt, "m"] => self.call(a.parse().unwrap_or(99), t(tt), 1, false).await,
             ["call", a, tt, "m0"] => self.call(a.parse().unwrap_or(99), t(tt), 2, false).await,
             ["call", a, tt, "d"] => self.call(a.parse().unwrap_or(99), t(tt), 0, true).await,
+            ["call", a, tt, "f"] => self.call(a.parse().unwrap_or(99), t(tt), 9, false).await,
             ["cast", a, v] => self.cast(a.parse().unwrap_or(99), v.parse().unwrap_or(0), "").await,
             ["cast", a, v, fl] => self.cast(a.parse().unwrap_or(99), v.parse().unwrap_or(0), fl).await,
             ["fcall", a, f, tt] => self.fcall(a.parse().unwrap_or(99), f.parse().unwrap_or(99), t(tt), false).await,
             ["fcall", a, f, tt, "m"] => self.fcall(a.parse().unwrap_or(99), f.parse().unwrap_or(99), t(tt), true).await,
+            ["fcall", a, f, tt, "f"] => {
+                self.free_fcall = true;
+                let r = self.fcall(a.parse().unwrap_or(99), f.parse().unwrap_or(99), t(tt), false).await;
+                self.free_fcall = false;
+                r
+            }
             ["mcall", targets, tt] => {
                 let v: Vec<usize> = targets.split(',').filter_map(|x| x.parse().ok()).collect();
                 self.mcall(&v, t(tt)).await
@@ -1025,8 +1075,8 @@ async fn gen_case(log: &mut Log, st: &mut Stats, rng: &mut Rng, len: u64) {
             117 => format!("spawnl {}", rng.below(nsup as u64)),
             118 => format!("handle {a} keep"),
             119 => if rng.chance(1, 2) { format!("supexit {}", rng.below(nsup as u64)) } else { format!("handle {a} keep") },
-            0..=26 => format!("call {a} {}{}", gen_timeout(rng), *rng.pick(&["", "", " m", " m0", " d"])),
-            27..=29 => format!("cast {a} {}{}", rng.below(1000), *rng.pick(&["", " f", " m", " d", " ds"])),
+            0..=26 => format!("call {a} {}{}", gen_timeout(rng), *rng.pick(&["", " f", " m", " m0", " d"])),
+            27..=29 => format!("cast {a} {}{}", rng.below(1000), *rng.pick(&["", " f", " m", " d", " ds", " dp"])),
             30..=56 => format!("handle {a} {}", gen_act(rng).show()),
             // the handler acts exactly when a deadline is reached (reply at the deadline instant wins)
             57..=59 => format!("handle {a} {} +{}", gen_act(rng).show(), rng.pick(&[1u64, 2, 3, 5])),
@@ -1041,11 +1091,11 @@ async fn gen_case(log: &mut Log, st: &mut Stats, rng: &mut Rng, len: u64) {
                 format!("later {p} {}", act.show())
             }
             69..=75 => {
-                let m = rng.range(1, 3);
+                let m = rng.range(1, 4);
                 let ts: Vec<String> = (0..m).map(|_| rng.below(na).to_string()).collect();
                 format!("mcall {} {}", ts.join(","), gen_timeout(rng))
             }
-            76..=83 => format!("fcall {a} {} {}{}", rng.below(na), gen_timeout(rng), if rng.chance(1, 2) { " m" } else { "" }),
+            76..=83 => format!("fcall {a} {} {}{}", rng.below(na), gen_timeout(rng), *rng.pick(&["", " m", " m", " f"])),
             84..=91 => format!("advance {}", rng.pick(&[1u64, 1, 2, 3, 7])),
             92 => format!("{} {a}", rng.pick(&["badcast", "badsend", "badcall", "baddcast"])),
             93 => format!("exit {a}"),
